@@ -46,7 +46,10 @@ type c10Row struct {
 	P   *c10Inner `parquet:"p"` // payload whose nulls sit at different depths
 	L   []int32   `parquet:"l"`
 	RK  []int64   `parquet:"rk"` // a repeated column that can be declared as sorting column: lists sharing their first elements
+	Z   int64     `parquet:"z"`  // a required column behind the repeated ones, also used as sorting column (paths .../by-z)
 }
+
+func c10Z(k1, k2 int) int64 { return int64(k1*3+k2) - 4 }
 
 func c10Sorting(cs []c10Col) []parquet.SortingColumn {
 	out := []parquet.SortingColumn{}
@@ -78,6 +81,9 @@ func c10RowOf(id int, keys []int) c10Row {
 	}
 	if len(keys) > 1 {
 		row.RK = []int64{int64(keys[0]), int64(keys[1]), int64(id % 2)}[:1+(id+keys[0])%3]
+	}
+	if len(keys) > 1 {
+		row.Z = c10Z(keys[0], keys[1])
 	}
 	if keys[0] != 0 {
 		x := int64(keys[0])*7 - 10
@@ -129,6 +135,9 @@ func c10Keys(row c10Row) []int {
 			k2 = n
 		}
 	}
+	if k1 != alien && k2 != alien && row.Z != c10Z(k1, k2) {
+		return []int{alien, alien}
+	}
 	return []int{k1, k2}
 }
 
@@ -174,14 +183,20 @@ func c10Main(args []string) error {
 		// reverse the whole order, and nothing says which of the two a descending list column means
 		byRK := []parquet.SortingColumn{parquet.Ascending("rk")}
 		rkComparator := schema.Comparator(byRK...)
+		byZ := []parquet.SortingColumn{parquet.Ascending("z")}
+		zComparator := schema.Comparator(byZ...)
 		emit := func(path string, out []c10Row, meta [][]int, dd bool, err error, pan bool, msg string) {
 			comparator, by := comparator, "keys"
 			if strings.HasSuffix(path, "/by-rk") {
 				comparator, by = rkComparator, "rk"
 			}
-			ids, ks, cmps := []int{}, [][]int{}, []int{}
+			if strings.HasSuffix(path, "/by-z") {
+				comparator, by = zComparator, "z"
+			}
+			ids, ks, cmps, zs := []int{}, [][]int{}, []int{}, []int{}
 			for i := range out {
 				ids = append(ids, int(out[i].ID))
+				zs = append(zs, int(out[i].Z))
 				ks = append(ks, c10Keys(out[i]))
 				if i > 0 {
 					a := schema.Deconstruct(nil, &out[i-1])
@@ -189,7 +204,7 @@ func c10Main(args []string) error {
 					cmps = append(cmps, comparator(a, b))
 				}
 			}
-			e := ev{"path": path, "by": by, "ids": ints(ids), "keys": ks, "cmp": ints(cmps), "dedupe": b2i(dd), "err": b2i(err != nil || pan)}
+			e := ev{"path": path, "by": by, "z": ints(zs), "ids": ints(ids), "keys": ks, "cmp": ints(cmps), "dedupe": b2i(dd), "err": b2i(err != nil || pan)}
 			if len(ks) == 0 {
 				e["keys"] = [][]int{}
 			}
@@ -306,6 +321,38 @@ func c10Main(args []string) error {
 		run("SortingWriter/by-rk", func() ([]c10Row, [][]int, bool, error) {
 			out := new(bytes.Buffer)
 			w := parquet.NewSortingWriter[c10Row](out, 3, parquet.SortingWriterConfig(parquet.SortingColumns(byRK...)))
+			if err := writeBatches(func(p []c10Row) error { _, e := w.Write(p); return e }); err != nil {
+				return nil, nil, false, err
+			}
+			if err := w.Close(); err != nil {
+				return nil, nil, false, err
+			}
+			rows, _, _, err := c10ReadFile(out.Bytes(), readAll)
+			return rows, nil, false, err
+		})
+		// a required sorting column behind repeated columns holding several values per row
+		zCfg := parquet.SortingRowGroupConfig(parquet.SortingColumns(byZ...))
+		run("GenericBuffer[T]/by-z", func() ([]c10Row, [][]int, bool, error) {
+			b := parquet.NewGenericBuffer[c10Row](zCfg)
+			if err := writeBatches(func(p []c10Row) error { _, e := b.Write(p); return e }); err != nil {
+				return nil, nil, false, err
+			}
+			sort.Sort(b)
+			out, err := readAll(b.Rows())
+			return out, nil, false, err
+		})
+		run("RowBuffer[T]/by-z", func() ([]c10Row, [][]int, bool, error) {
+			b := parquet.NewRowBuffer[c10Row](zCfg)
+			if err := writeBatches(func(p []c10Row) error { _, e := b.Write(p); return e }); err != nil {
+				return nil, nil, false, err
+			}
+			sort.Sort(b)
+			out, err := readAll(b.Rows())
+			return out, nil, false, err
+		})
+		run("SortingWriter/by-z", func() ([]c10Row, [][]int, bool, error) {
+			out := new(bytes.Buffer)
+			w := parquet.NewSortingWriter[c10Row](out, 3, parquet.SortingWriterConfig(parquet.SortingColumns(byZ...)))
 			if err := writeBatches(func(p []c10Row) error { _, e := w.Write(p); return e }); err != nil {
 				return nil, nil, false, err
 			}
